@@ -53,6 +53,7 @@ class Run:
         self.t_impl = 0.0
         self.n_impl = 0
         self.reported = {}
+        self.unexplained = {}
         words = []
         if "error" not in info:
             words = list(info["keywords"]) + [info["true_word"], info["false_word"], info["null_word"]]
@@ -99,13 +100,16 @@ class Run:
         return None
 
     def report(self, kind, what, case, classify=None):
-        """cap the number of replays per kind of fault (all are still counted)"""
-        c = self.reported.get(kind, 0)
-        self.reported[kind] = c + 1
+        """every fault is counted; faults explained by a known finding always go to the classifier's tally; of the unexplained ones the
+        first 6 per kind become replays (the cap is on unexplained faults only, so known-finding noise cannot hide them)"""
+        self.reported[kind] = self.reported.get(kind, 0) + 1
         fid = classify(case) if classify else None
-        if fid is not None or c < 6:
-            return self.ck.disagreement(what, case, classify)
-        return None
+        if fid is None:
+            c = self.unexplained.get(kind, 0)
+            self.unexplained[kind] = c + 1
+            if c >= 6:
+                return None
+        return self.ck.disagreement(what, case, classify)
 
     def model_failed(self, why):
         """fail closed: the correspondence could not be run"""
@@ -247,7 +251,7 @@ class Run:
                 return
             for k in r[1]:
                 bad.append(fast[bi * batch + k][0])
-        again = slow + bad[:40]
+        again = bad[:40] + slow
         vals = coq_eval(self.header, ["run %s %s" % (self.tables, L.codes(strs[i])) for i in again]) if again else []
         self.t_model += time.time() - t0
         self.n_model += len(fast) + len(slow)
@@ -355,7 +359,7 @@ def run():
     # (a') directed family: every reserved / literal-like word of the current tables x every left context (line start, after a token,
     #      glued to a token, inside brackets, after operators) x every right context (terminators and non-terminators).
     #      quick: all (word, left) pairs with a small right set + all (word, right) pairs with a small left set; thorough: the full product
-    words = L.context_words(info if "error" not in info else {})
+    words = L.context_words(info if "error" not in info else {}, ck.thorough, ck.rng)
     wc = list(L.word_contexts(words, full=ck.thorough))
     for cls, _ in wc:
         ck.stat("word-contexts", "position-class:" + cls)
@@ -396,6 +400,7 @@ def run():
                             "implementation_cases_per_s": round(R.n_impl / R.t_impl, 1) if R.t_impl else None,
                             "model_cases": R.n_model, "distinct_slices_relexed": len(R.relex_cache)}
     ck.coverage["faults_by_kind"] = R.reported
+    ck.coverage["unexplained_faults_by_kind"] = R.unexplained
     ck.proof_broken_violation(found_input=bool(ck.violations))
     ck.assumptions += ["strings fed to the model use only code points of the validated class domain; strings outside it go through the implementation-only oracle",
                        "the lexer is deterministic (C11): slices are re-lexed once and cached"]
